@@ -143,6 +143,8 @@ pub enum Target {
     /// TCP: RST (connection refused); others as `Answers`.
     Refuses,
     Silent,
+    /// Silent for probes sent in rounds before this one, answers from then on.
+    AnswersFromRound(usize),
 }
 
 #[derive(Debug, Clone, PartialEq, Eq)]
@@ -757,7 +759,12 @@ impl World {
             }
         } else {
             let dst = self.cfg.dst;
-            match (self.cfg.topo.target, self.cfg.proto) {
+            let target = match self.cfg.topo.target {
+                Target::AnswersFromRound(r) if self.round >= r => Target::Answers,
+                Target::AnswersFromRound(_) => Target::Silent,
+                t => t,
+            };
+            match (target, self.cfg.proto) {
                 (Target::Silent, Proto::Tcp) => {
                     self.socks[sock].tcp = Tcp::InFlight {
                         ready_at: u64::MAX,
